@@ -501,3 +501,151 @@ gro_columns = FunctionContract(
             ("if width > 0:", "if width >= 0:")],
 )
 CONTRACTS.append(gro_columns)
+
+
+# ------------------------------------------------------------------ write_pdb_string: which bonded atoms are listed for an atom
+def setup_partners(cx):
+    from pyvc.builtins import make_iter, _int
+    eng = cx.eng
+    nbrs = cx.val('NBRS', TSeq(TInt))                        # molecule[node_idx]: the atoms bonded to node_idx, each once (networkx adjacency)
+    cx.spec_env['NBRS'] = nbrs
+    serial = cx.uf('serial', [TInt, TInt], TInt)            # nodeidx2atomid[(molecule, node)]: by the contract of the serial-number region
+    mol_idx, node_idx = cx.val('mol_idx', TInt), cx.val('node_idx', TInt)
+    for f in ('up_ix', 'up_rk', 'srt_ix', 'srt_rk'):
+        cx.uf(f, [TInt], TInt)
+    cx.spec_env['up_len'] = SV(TInt, z3.Int('up_len'))
+
+    def n2a(e, k):
+        if not (isinstance(k, tuple) and len(k) == 2):
+            raise EngineError('nodeidx2atomid key of another shape')
+        return SV(TInt, serial(to_z3(k[0], TInt), to_z3(k[1], TInt)))
+
+    def adj(e, k):
+        e.oblige(z3.eq(to_z3(k, TInt), node_idx.e), 'neighbours:of-this-atom')
+        return nbrs
+
+    def sorted_(e, xs, key=None, reverse=False):
+        # sorted() by its contract: an arrangement of the given elements (index maps srt_ix / srt_rk, inverse of each other) in
+        # non-decreasing order
+        if key is not None or reverse:
+            raise EngineError('sorted() with a key')
+        it = make_iter(e, xs)
+        n = _int(it.n)
+        st = TSeq(TInt)
+        out = e.fresh_val(st, 'sorted')
+        ix, rk = e.uf('srt_ix', [TInt], TInt), e.uf('srt_rk', [TInt], TInt)
+        a, b = z3.FreshInt('sa'), z3.FreshInt('sb')
+        e.assume(st.len(out.e) == n)
+        e.assume(z3.ForAll([a], z3.Implies(z3.And(0 <= a, a < n), z3.And(0 <= ix(a), ix(a) < n, rk(ix(a)) == a, 0 <= rk(a), rk(a) < n, ix(rk(a)) == a,
+                                                                      st.at(out.e, a) == to_z3(it.get(ix(a)), TInt)))))
+        e.assume(z3.ForAll([a, b], z3.Implies(z3.And(0 <= a, a < b, b < n), st.at(out.e, a) <= st.at(out.e, b))))
+        return out
+    cx.spec_env['sorted'] = Builtin(sorted_, 'sorted')
+    return dict(nodeidx2atomid=Obj('nodeidx2atomid', __getitem__=Builtin(n2a, 'nodeidx2atomid[]')), mol_idx=mol_idx, node_idx=node_idx,
+                molecule=Obj('Molecule', __getitem__=Builtin(adj, 'molecule[]')))
+
+
+conect_partners = FunctionContract(
+    FP, 'write_pdb_string', 'C16', short='write_pdb_string[which bonded atoms are listed for an atom]', setup=setup_partners,
+    region=dict(within=["if conect:", "for mol_idx, molecule in enumerate(system.molecules):", "for node_idx in molecule:"],
+                start="todo = sorted(", end="while todo:"),
+    filters={"n_idx > node_idx": 'up'},
+    ensures=[
+        # the atoms listed for an atom are exactly its bonded atoms with a larger key - every bond is listed at one of its two atoms
+        # only - as the serial numbers of this molecule, in non-decreasing order
+        "len(todo) == up_len",
+        "forall(lambda p: implies(0 <= p and p < len(NBRS) and NBRS[p] > node_idx, 0 <= srt_rk(up_rk(p)) and srt_rk(up_rk(p)) < len(todo) and "
+        "   todo[srt_rk(up_rk(p))] == serial(mol_idx, NBRS[p])))",
+        "forall(lambda q: implies(0 <= q and q < len(todo), 0 <= up_ix(srt_ix(q)) and up_ix(srt_ix(q)) < len(NBRS) and "
+        "   NBRS[up_ix(srt_ix(q))] > node_idx and todo[q] == serial(mol_idx, NBRS[up_ix(srt_ix(q))])))",
+        # two positions of the list are two different bonded atoms
+        "forall(lambda q, r: implies(0 <= q and q < r and r < len(todo), up_ix(srt_ix(q)) != up_ix(srt_ix(r))))",
+        "forall(lambda q, r: implies(0 <= q and q < r and r < len(todo), todo[q] <= todo[r]))",
+    ],
+    canary=[("if n_idx > node_idx)", "if n_idx >= node_idx)"), ("if n_idx > node_idx)", "if n_idx < node_idx)"),
+            ("todo = sorted(nodeidx2atomid[(mol_idx, n_idx)]", "todo = sorted(nodeidx2atomid[(mol_idx, node_idx)]")],
+)
+CONTRACTS.append(conect_partners)
+
+
+# ------------------------------------------------------------------ PDBParser._do_single_conect: one CONECT record read back
+Edge3 = TTuple(MolT, TInt, TInt, names=['mol', 'a', 'b'])
+
+
+def setup_dsc(cx):
+    from pyvc.builtins import list_append
+    eng = cx.eng
+    mols = cx.heap('MOLS', cx.box('MOLS', TSeq(MolT)))                      # self.molecules
+    id2 = cx.box('id2idxs', TSeq(TMap(TInt, TInt)))                        # per molecule: serial number -> node key
+    rec = cx.val('conect_record', TSeq(TInt))
+    EDGES = cx.heap('EDGES', cx.box('EDGES', TSeq(Edge3)))                  # add_edge calls, in order
+    H = cx.val('H', TInt)                                                   # the molecule the serial numbers of this record belong to
+    cx.spec_env.update(H=H, MolT=MolT)
+    eng.identity_sorts = {'MolT'}                                           # a value of MolT is a molecule object: `is` is equality
+    pos = cx.uf('pos_of', [MolT, TInt], TInt)
+    cx.uf('dist', [TInt, TInt], TInt)
+
+    def node_view(e, m):
+        me = to_z3(m, MolT)
+        return Obj('NodeView', __getitem__=Builtin(lambda e2, k: Obj('atomdict', __getitem__=Builtin(
+            lambda e3, a: SV(TInt, pos(me, to_z3(k, TInt))) if a == 'position' else (_ for _ in ()).throw(EngineError('attribute %r' % (a,))),
+            'node[]')), 'nodes[]'))
+    eng.attr_hooks[('MolT', 'nodes')] = node_view
+
+    def add_edge(e, m, a, b, distance=None):
+        e.oblige(distance is not None and to_z3(distance, TInt) == cx.eng.ufs['dist'](pos(to_z3(m, MolT), to_z3(a, TInt)), pos(to_z3(m, MolT), to_z3(b, TInt))),
+                 'distance:between-the-two-bonded-atoms')
+        list_append(e, EDGES, (m, a, b))
+    eng.methods[('MolT', 'add_edge')] = add_edge
+    cx.spec_env['distance'] = Builtin(lambda e, p, q: SV(TInt, cx.eng.ufs['dist'](to_z3(p, TInt), to_z3(q, TInt))), 'distance')
+    cx.spec_env['LOGGER'] = Obj('LOGGER', info=Builtin(lambda e, *a, **k: None, 'LOGGER.info'))
+    cx.spec_env['format_atom_string'] = Builtin(lambda e, *a, **k: Obj('text'), 'format_atom_string')
+    return dict(self=Obj('PDBParser', molecules=mols), conect_record=rec, id2idxs=id2)
+
+
+SPEC_DSC = {
+    # the q-th number of the record names an atom that was read
+    'known': "lambda q: conect_record[q] in id2idxs[H]",
+    'key': "lambda q: id2idxs[H][conect_record[q]]",
+}
+do_single_conect = FunctionContract(
+    FP, 'PDBParser._do_single_conect', 'C16', setup=setup_dsc, spec_defs=SPEC_DSC,
+    requires=[
+        "len(conect_record) >= 1 and len(id2idxs) == len(MOLS) and 0 <= H and H < len(MOLS)",
+        "forall(lambda a, b: implies(0 <= a and a < b and b < len(MOLS), MOLS[a] != MOLS[b]))",
+        # the record stays within one molecule - what the writer produces (its records list bonded atoms of the atom's own molecule,
+        # and the TER records restore the division into molecules); a record that joins two molecules is outside this contract
+        "forall(lambda q, k: implies(0 <= q and q < len(conect_record) and 0 <= k and k < len(id2idxs) and conect_record[q] in id2idxs[k], k == H))",
+        "len(old(EDGES)) == 0",
+    ],
+    ensures=[
+        # every number after the first that names an atom that was read gives exactly one bond, between the atom the first number names
+        # and that atom, in its molecule and in the order of the record; numbers of skipped atoms give nothing; a record whose first
+        # atom was skipped gives nothing
+        "implies(not known(0), len(EDGES) == 0)",
+        "forall(lambda e: implies(0 <= e and e < len(EDGES), 1 <= g_src[e] and g_src[e] < len(conect_record) and known(0) and known(g_src[e]) and "
+        "   g_pos[g_src[e]] == e and EDGES[e] == (MOLS[H], key(0), key(g_src[e]))))",
+        "forall(lambda q: implies(1 <= q and q < len(conect_record) and known(0) and known(q), 0 <= g_pos[q] and g_pos[q] < len(EDGES) and g_src[g_pos[q]] == q))",
+        "forall(lambda k: implies(0 <= k and k < len(MOLS), MOLS[k] == old(MOLS)[k])) and len(MOLS) == len(old(MOLS))",
+    ],
+    ghost_at={'entry': "g_src = {}\ng_pos = {}",
+              # the number names an atom of some molecule: by the precondition it is the molecule of the first atom - no merging
+              'before:stmt:if mol is not mol2:': "prove(mol2 == mol and known(_i + 1) and atomidx == key(_i + 1), 'the-second-atom-is-in-the-same-molecule')",
+              'before:stmt:mol.add_edge(atomidx0, atomidx, distance=dist)': "g_src[len(EDGES)] = _i + 1\ng_pos[_i + 1] = len(EDGES)"},
+    locals=dict(g_src=TMap(TInt, TInt), g_pos=TMap(TInt, TInt)),
+    modifies=['EDGES'],
+    loops={
+        'L1': LoopSpec(inv=["forall(lambda k: implies(0 <= k and k < _i, conect_record[0] not in id2idxs[k]))"], modifies=[]),
+        'L2': LoopSpec(
+            inv=["mol == MOLS[H] and known(0) and atomidx0 == key(0)",
+                 "forall(lambda e: implies(0 <= e and e < len(EDGES), 1 <= g_src[e] and g_src[e] < _i + 1 and known(g_src[e]) and "
+                 "   g_pos[g_src[e]] == e and EDGES[e] == (MOLS[H], key(0), key(g_src[e]))))",
+                 "forall(lambda q: implies(1 <= q and q < _i + 1 and known(q), 0 <= g_pos[q] and g_pos[q] < len(EDGES) and g_src[g_pos[q]] == q))"],
+            modifies=['EDGES', 'g_src', 'g_pos']),
+        'L2.1': LoopSpec(inv=["forall(lambda k: implies(0 <= k and k < _i, atomid not in id2idxs[k]))"], modifies=[]),
+    },
+    canary=[("mol.add_edge(atomidx0, atomidx, distance=dist)", "mol.add_edge(atomidx0, atomidx0, distance=dist)"),
+            ("for atomid in conect_record[1:]:", "for atomid in conect_record[2:]:"),
+            ("atomidx = id2idx[atomid]", "atomidx = id2idx[atomid0]")],
+)
+CONTRACTS.append(do_single_conect)
